@@ -240,6 +240,15 @@ func TestVerifC19Sharp(t *testing.T) {
 	defer out.Close()
 	zs := c19Ints("VERIF_Z", "1,2")
 	sts := c19Ints("VERIF_ST", "1,2,3,4,5")
+	narrowZ, narrowPV := map[int]bool{}, map[string]bool{}
+	if v := verifutil.Env("VERIF_Z_NARROW", ""); v != "" {
+		for _, z := range c19Ints("VERIF_Z_NARROW", "") {
+			narrowZ[z] = true
+		}
+		for _, pv := range strings.Split(verifutil.Env("VERIF_PV_NARROW", "1:2:0"), ",") {
+			narrowPV[pv] = true
+		}
+	}
 	// protocol:version:tls
 	var cfgCases []configCase
 	for _, pv := range strings.Split(verifutil.Env("VERIF_PV", "1:1:0,1:2:0,2:2:0,3:1:0,3:2:0"), ",") {
@@ -250,6 +259,9 @@ func TestVerifC19Sharp(t *testing.T) {
 		p, _ := strconv.Atoi(f[0])
 		v, _ := strconv.Atoi(f[1])
 		for _, z := range zs {
+			if narrowZ[z] && !narrowPV[pv] {
+				continue // (quick tier: the compressions of VERIF_Z_NARROW only on the instances of VERIF_PV_NARROW)
+			}
 			for _, st := range sts {
 				if v == 1 && conformancev1.StreamType(st) == conformancev1.StreamType_STREAM_TYPE_FULL_DUPLEX_BIDI_STREAM {
 					continue
